@@ -466,6 +466,7 @@ impl Ctx {
                 .arg("-len_control=0")
                 .arg(format!("-max_len={max_len}"))
                 .arg("-timeout=60")
+                .arg("-max_total_time=1500")
                 .arg("-print_final_stats=1")
                 .arg(format!("-artifact_prefix={art}fuzz-{target}-"))
                 .arg(&corpus)
@@ -476,7 +477,17 @@ impl Ctx {
                 .stderr(std::process::Stdio::piped())
                 .spawn();
             match child {
-                Ok(c) => children.push((c, corpus)),
+                Ok(mut c) => {
+                    // drain stderr concurrently: a full pipe would otherwise stall every process
+                    // but the one currently being waited for
+                    let mut pipe = c.stderr.take().expect("stderr");
+                    let reader = std::thread::spawn(move || {
+                        let mut b = Vec::new();
+                        let _ = std::io::Read::read_to_end(&mut pipe, &mut b);
+                        b
+                    });
+                    children.push((c, corpus, reader))
+                }
                 Err(e) => {
                     eprintln!("INCONCLUSIVE: cannot start fuzz target: {e}");
                     std::process::exit(2);
@@ -488,15 +499,15 @@ impl Ctx {
         let mut total_runs = 0u64;
         let mut corpus_total = 0u64;
         let mut cov = 0u64;
-        for (child, corpus) in children {
-            let out = match child.wait_with_output() {
+        for (mut child, corpus, reader) in children {
+            let status = match child.wait() {
                 Ok(o) => o,
                 Err(e) => {
                     eprintln!("INCONCLUSIVE: fuzz process failed: {e}");
                     std::process::exit(2);
                 }
             };
-            let err = String::from_utf8_lossy(&out.stderr).to_string();
+            let err = String::from_utf8_lossy(&reader.join().unwrap_or_default()).to_string();
             for l in err.lines() {
                 if let Some(r) = l.strip_prefix("stat::number_of_executed_units:") {
                     total_runs += r.trim().parse::<u64>().unwrap_or(0);
@@ -518,7 +529,7 @@ impl Ctx {
                 }
             }
             let _ = std::fs::remove_dir_all(&corpus);
-            if !out.status.success() {
+            if !status.success() {
                 if let Some(path) = err.lines().find_map(|l| l.split("Test unit written to ").nth(1)) {
                     let path = path.trim().to_string();
                     if err.contains("ORACLE FAILURE") {
@@ -538,7 +549,7 @@ impl Ctx {
                         ok = false;
                     }
                 } else {
-                    eprintln!("INCONCLUSIVE: fuzz target {target} exited with {:?} without an artifact:\n{}", out.status.code(), err.lines().rev().take(8).collect::<Vec<_>>().join("\n"));
+                    eprintln!("INCONCLUSIVE: fuzz target {target} exited with {:?} without an artifact:\n{}", status.code(), err.lines().rev().take(8).collect::<Vec<_>>().join("\n"));
                     std::process::exit(2);
                 }
             }
